@@ -211,12 +211,9 @@ task_affine.contract_fn = "knotspace.KnotVector.scale"
 
 def tasks(tier, seed):
     ts = [(task_generators, (5 if tier == "quick" else 8, 8 if tier == "quick" else 14)), (task_normalize_float, ())]
-    try:
-        from ..pyvc.driver import verify
-        from ..contracts import gens
-        ts += [(verify, (c, m, q, v)) for c, m, q, v in gens.ALL]
-    except ImportError:
-        pass
+    from ..pyvc.driver import verify
+    from ..contracts import facade
+    ts += [(verify, (c, m, q, v)) for c, m, q, v in facade.ALL if any(x in c.name for x in ("shift", "scale", "normalize", "__imul__"))]
     shapes = spec.knot_shapes(2, 1) + [(3, (2,)), (1, (1, 2))] if tier == "quick" else spec.knot_shapes(3, 2)
     for sh in shapes:
         ts.append((task_affine, (sh,)))
